@@ -192,3 +192,52 @@ package bitmap
 //@     invariant -1 <= rangeindex && rangeindex < len(subs)
 //@     invariant forall k int :: 0 <= k && k <= rangeindex ==> getw(r, k, int(size)) == subs[k] & lowmask(int(size))
 //@     invariant forall k int :: rangeindex < k && k < 1<<32 && (k+1)*int(size) <= 64*len(r) ==> getw(r, k, int(size)) == 0
+
+// ---- C12: Builder ----
+
+//@ func NewBuilder returns (b)
+//@   requires n >= 0
+//@   ensures b.Offset == 0 && len(b.Words) == 0
+//@   assigns nothing
+
+//@ func Builder.Extend
+//@   requires ascending(bitPositions)
+//@   requires forall k int :: 0 <= k && k < len(bitPositions) ==> 0 <= bitPositions[k] && bitPositions[k] < 0x3fffffc0
+//@   requires 0 <= size && size < 0x3fffffc0 && 0 <= b.Offset && b.Offset < 0x3fffffc0 && len(b.Words) < 1<<25
+//@   ensures b.Offset == old(b.Offset) + size
+//@   ensures len(b.Words) >= len(old(b.Words)) && 64*len(b.Words) >= int(b.Offset) && len(b.Words) < 1<<25
+//@   ensures len(bitPositions) > 0 ==> 64*len(b.Words) > int(old(b.Offset) + bitPositions[len(bitPositions)-1])
+//@   ensures forall p int32 :: 0 <= p && int(p) < 64*len(b.Words) ==> (bitAt(b.Words, p) == 1 <==> (int(p) < 64*len(old(b.Words)) && bitAt(old(b.Words), p) == 1) || memb(bitPositions, len(bitPositions), p - old(b.Offset)))
+//@   assigns b.Words, b.Offset, b.Words[*]
+//@   loop 1
+//@     invariant len(b.Words) >= len(old(b.Words))
+//@     invariant len(b.Words) == len(old(b.Words)) || (len(b.Words) - 1) << 6 < int(end)
+//@     invariant regof(b.Words) == regof(old(b.Words)) && offof(b.Words) == offof(old(b.Words)) || fresh(b.Words)
+//@     invariant forall k int :: 0 <= k && k < len(old(b.Words)) ==> b.Words[k] == old(b.Words)[k]
+//@     invariant forall k int :: len(old(b.Words)) <= k && k < len(b.Words) ==> b.Words[k] == 0
+//@   loop 2
+//@     invariant -1 <= rangeindex && rangeindex < len(bitPositions)
+//@     invariant forall p int32 :: 0 <= p && int(p) < 64*len(b.Words) ==> (bitAt(b.Words, p) == 1 <==> (int(p) < 64*len(old(b.Words)) && bitAt(old(b.Words), p) == 1) || memb(bitPositions, rangeindex+1, p - old(b.Offset)))
+
+//@ func Builder.Set
+//@   requires 0 <= bitPosition && bitPosition < 0x7fffffc0 && len(b.Words) < 1<<25
+//@   ensures b.Offset == ite(old(b.Offset) <= bitPosition, bitPosition + 1, old(b.Offset))
+//@   ensures len(b.Words) == ite(int(bitPosition>>6) >= len(old(b.Words)), int(bitPosition>>6) + 1, len(old(b.Words)))
+//@   ensures forall p int32 :: 0 <= p && int(p) < 64*len(b.Words) ==> (bitAt(b.Words, p) == 1 <==> (int(p) < 64*len(old(b.Words)) && bitAt(old(b.Words), p) == 1) || (p == bitPosition && value&1 == 1))
+//@   assigns b.Words, b.Offset, b.Words[*]
+//@   loop 1
+//@     invariant len(b.Words) >= len(old(b.Words))
+//@     invariant len(b.Words) == len(old(b.Words)) || len(b.Words) - 1 <= int(bitPosition>>6)
+//@     invariant regof(b.Words) == regof(old(b.Words)) && offof(b.Words) == offof(old(b.Words)) || fresh(b.Words)
+//@     invariant forall k int :: 0 <= k && k < len(old(b.Words)) ==> b.Words[k] == old(b.Words)[k]
+//@     invariant forall k int :: len(old(b.Words)) <= k && k < len(b.Words) ==> b.Words[k] == 0
+
+// ---- C11: FromStr32 ----
+
+//@ func FromStr32 returns (k, v)
+//@   requires 0 <= frombit && frombit < 0x7fffff00 && frombit <= tobit && tobit - frombit <= 32 && len(s) < 1<<27
+//@   ensures k == clamp32(int32(len(s)*8) - frombit, 0, tobit - frombit)
+//@   ensures v <= lowmask(int(tobit - frombit))
+//@   ensures forall t int32 :: 0 <= t && t < tobit - frombit ==> (v >> uint64(tobit - frombit - 1 - t)) & 1 == ite(t < k, sbit(s, frombit + t), uint64(0))
+//@   assigns nothing
+//@   split frombit&7 0 7
